@@ -428,6 +428,10 @@ impl<'a> Interp<'a> {
                 a
             };
             v = match (f.name.as_str(), &v, args.as_slice()) {
+                ("digest", x, []) => match print(x) {
+                    Some(t) => RVal::Str(crate::plug::digest_text(&t)),
+                    None => return unspec("printed form not specified"),
+                },
                 ("append", RVal::Str(s), [RVal::Str(t)]) => RVal::Str(format!("{s}{t}")),
                 ("append", RVal::Str(s), [RVal::Int(t)]) => RVal::Str(format!("{s}{t}")),
                 ("append", RVal::Int(s), [RVal::Str(t)]) => RVal::Str(format!("{s}{t}")),
@@ -785,6 +789,11 @@ impl<'a> Interp<'a> {
                 for (k, e) in args {
                     let v = self.eval_defined(e, "render argument")?;
                     base.insert(k.clone(), v);
+                }
+                if let RenderMode::With(_, alias) | RenderMode::For(_, alias) = mode {
+                    if args.iter().any(|(k, _)| k == alias) || alias == "forloop" {
+                        return unspec("render alias also given as an argument");
+                    }
                 }
                 let runs: Vec<BTreeMap<String, RVal>> = match mode {
                     RenderMode::Plain => vec![base],
